@@ -43,6 +43,9 @@ func eofOr(err error) error {
 
 // ---- the case list (a function of seed, tier, search) ----
 
+const rcvd1 = `<message from='` + peerJID + `' type='chat'><received xmlns='urn:xmpp:receipts' id='r1'/></message>`
+const rcvd3 = `<message from='` + peerJID + `' type='chat'><received xmlns='urn:xmpp:receipts' id='r1'/><received xmlns='urn:xmpp:receipts' id='r1'/><received xmlns='urn:xmpp:receipts' id='r1'/></message>`
+
 func corpus() []Case {
 	txt := func(s string) []string { return []string{s} }
 	cs := []Case{
@@ -70,6 +73,15 @@ func corpus() []Case {
 		// muc: joined, removed by the room with no Leave pending, joined again, removed again
 		{Kind: "serve", Seq: []string{"@muc-join", canon["muc"][0], canon["muc"][2], "@muc-rejoin", canon["muc"][0], canon["muc"][2], canon["ping"][0]}, Labels: []string{"corpus/muc-removed-twice"}},
 		{Kind: "serve", Seq: []string{"@muc-join", canon["muc"][0], canon["muc"][2], "@muc-rejoin", canon["muc"][0], "@muc-leave", canon["muc"][2], "@muc-rejoin", canon["muc"][0], canon["muc"][2]}, Labels: []string{"corpus/muc-removed-leave-removed"}},
+		// ibb: Expect taken over by a second call for the same session; nobody in Accept; then the peer opens it
+		{Kind: "serve", Seq: []string{"@ibb-listen", "@ibb-expect", "@ibb-expect", canon["ibb"][0], canon["ping"][0]}, Labels: []string{"corpus/ibb-expect-takeover"}},
+		{Kind: "serve", Seq: []string{"@ibb-listen", "@ibb-expect", "@ibb-expect", "@ibb-expect", canon["ibb"][0], canon["ibb"][1]}, Labels: []string{"corpus/ibb-expect-takeover-twice"}},
+		{Kind: "serve", Seq: []string{"@ibb-listen", "@ibb-acceptor", "@ibb-expect", "@ibb-expect-cancel", "@ibb-expect", canon["ibb"][0], canon["ibb"][5]}, Labels: []string{"corpus/ibb-expect-cancel-expect"}},
+		// receipts: the same receipt several times while the message awaits it (the sender cannot run: the peer
+		// does not read), then a probe stanza that is only read once the receipts have been handled
+		{Kind: "serve", Seq: []string{"@rcpt-send-held", rcvd3, `<message type='chat'><body>probe</body></message>`, "@out-release", canon["ping"][0]}, Labels: []string{"corpus/receipts-repeated-while-pending"}},
+		{Kind: "serve", Seq: []string{"@rcpt-send", rcvd3, rcvd1, rcvd1, rcvd1, canon["ping"][0]}, Labels: []string{"corpus/receipts-repeated"}},
+		{Kind: "serve", Seq: []string{rcvd3, rcvd1, rcvd1, "@rcpt-send", "@rcpt-cancel", rcvd1, rcvd3}, Labels: []string{"corpus/receipts-repeated-none-pending"}},
 		// history and receipts: iterators and pending sends opened and given up between stanzas
 		{Kind: "serve", Seq: []string{"@hist-fetch-consume", canon["history"][0], "@hist-close", canon["history"][0], canon["history"][1]}, Labels: []string{"corpus/history-close-between"}},
 		{Kind: "serve", Seq: []string{"@rcpt-send", "@rcpt-cancel", canon["receipts"][1], "@rcpt-send", canon["receipts"][1], canon["receipts"][1]}, Labels: []string{"corpus/receipts-cancel-between"}},
@@ -100,6 +112,11 @@ func corpus() []Case {
 		}
 		cs = append(cs, Case{Kind: "helper", Helper: h, Replies: txt(errReply), Labels: []string{"corpus/error-reply"}})
 	}
+	// request helpers in 1-4 goroutines against a flood of results with known and unknown ids
+	for g := 1; g <= 4; g++ {
+		cs = append(cs, Case{Kind: "flood", Par: g, Bare: g == 2, Labels: []string{"corpus/flood"}})
+	}
+	cs = append(cs, Case{Kind: "flood", Par: 4, Labels: []string{"corpus/flood"}}, Case{Kind: "flood", Par: 3, Labels: []string{"corpus/flood"}})
 	var out []Case
 	for _, c := range cs {
 		if c.Kind == "serve" {
@@ -200,6 +217,27 @@ func genOpSeq(r *hx.Rand) (seq []string, labels []string) {
 	n := 3 + r.Intn(6)
 	switch r.Intn(4) {
 	case 0: // ibb
+		if r.Chance(1, 4) {
+			// nobody accepts, but every <open/> is for the session a live Expect call
+			// waits for (calls taken over, cancelled and renewed in between): each must
+			// be delivered to that call
+			labels = append(labels, "ops/ibb-expect-only")
+			seq = append(seq, "@ibb-listen")
+			for i := 0; i < 1+r.Intn(3); i++ {
+				seq = append(seq, "@ibb-expect")
+				for j := r.Intn(3); j > 0; j-- {
+					if r.Chance(1, 3) {
+						seq = append(seq, "@ibb-expect-cancel")
+					}
+					seq = append(seq, "@ibb-expect")
+				}
+				seq = append(seq, canon["ibb"][0])
+				if r.Chance(1, 2) {
+					seq = append(seq, canon["ibb"][1]) // data for the stream just opened
+				}
+			}
+			return seq, labels
+		}
 		labels = append(labels, "ops/ibb")
 		open := false
 		for i := 0; i < n; i++ {
@@ -212,8 +250,11 @@ func genOpSeq(r *hx.Rand) (seq []string, labels []string) {
 				open = false
 			case k == 2 && open:
 				seq = append(seq, "@ibb-expect")
-				if r.Chance(1, 2) {
+				switch r.Intn(3) {
+				case 0:
 					seq = append(seq, "@ibb-expect-cancel")
+				case 1:
+					seq = append(seq, "@ibb-expect") // takes the first call over
 				}
 			case k == 3:
 				seq = append(seq, "@ibb-conn-close")
@@ -266,11 +307,19 @@ func genOpSeq(r *hx.Rand) (seq []string, labels []string) {
 	default: // receipts
 		labels = append(labels, "ops/receipts")
 		for i := 0; i < n; i++ {
-			switch r.Intn(5) {
+			switch r.Intn(7) {
 			case 0:
 				seq = append(seq, "@rcpt-send")
 			case 1:
 				seq = append(seq, "@rcpt-cancel")
+			case 2, 3: // the same receipt 2-5 times, in one message or back to back
+				if r.Chance(1, 2) {
+					seq = append(seq, rcvd3)
+				}
+				for j, m := 0, 2+r.Intn(4); j < m; j++ {
+					seq = append(seq, rcvd1)
+				}
+				labels = append(labels, "receipts/repeated")
 			default:
 				st("receipts", -1)
 			}
@@ -381,6 +430,24 @@ func crashObs(crash string) Obs {
 	var o Obs
 	o.Class = "panic"
 	msg := crash
+	if i := strings.Index(crash, "fatal error: "); i >= 0 {
+		// the runtime aborts the process (concurrent map access, deadlock ...): not a panic
+		msg = crash[i:]
+		first := msg
+		if j := strings.IndexByte(first, '\n'); j >= 0 {
+			first = first[:j]
+		}
+		kind := strings.NewReplacer("fatal error: ", "", " ", "-").Replace(first)
+		if strings.Contains(first, "concurrent map") {
+			kind = "concurrent-map"
+		}
+		fr := libFrame(msg)
+		o.Detail = first
+		o.fail("C09/crash/fatal/"+kind, "the Go runtime aborted the process ("+first+"); first library frame "+fr)
+		o.NonTriv = true
+		o.Classes = []string{"crash"}
+		return o
+	}
 	if i := strings.Index(crash, "panic: "); i >= 0 {
 		msg = crash[i:]
 	}
@@ -412,6 +479,7 @@ func (s *sup) runAll(par int) {
 		inflight, crash := s.spawn(pending, par)
 		if len(inflight) > 0 {
 			// find the killers: run the in-flight cases one at a time
+			reproduced := false
 			for _, i := range inflight {
 				if _, ok := s.obs[i]; ok {
 					continue
@@ -419,9 +487,26 @@ func (s *sup) runAll(par int) {
 				fl, cr := s.spawn([]int{i}, 1)
 				if len(fl) > 0 {
 					s.obs[i] = crashObs(cr)
+					reproduced = true
 				} else if _, ok := s.obs[i]; !ok {
 					s.obs[i] = crashObs(cr)
+					reproduced = true
 				}
+			}
+			if !reproduced && (strings.Contains(crash, "fatal error: ") || strings.Contains(crash, "panic: ")) {
+				// the crash depends on scheduling and did not come back alone: it is
+				// still a finding; blame the concurrent case that was in flight
+				blame := inflight[0]
+				for _, i := range inflight {
+					if s.cases[i].Kind == "flood" {
+						blame = i
+					}
+				}
+				ob := s.obs[blame]
+				co := crashObs(crash)
+				ob.Fails = append(ob.Fails, co.Fails...)
+				ob.Class = "panic"
+				s.obs[blame] = ob
 			}
 		} else if crash != "" && len(inflight) == 0 {
 			// the worker failed outside any case: give up on what is left
